@@ -942,7 +942,8 @@ def run_recipe_case(rng, case, idx, focus=None):
                 kf05_zone = st_['op'] == 'fill_to' and st_['dst'][1] is not None
                 if on_plate and st_['op'] in ('transfer', 'remove', 'fill_to') and not kf05_zone:
                     sub = any(isinstance(x[1], SubSel) for x in refs)
-                    M.violate(['C07'], 'BAKE', f'C07:recipe_step_ne_direct_operation:{st_["op"]}' + (':subslice_reference' if sub else ''),
+                    # (a remove step that departs from the direct removal did not delete exactly the selected substances: C17 too)
+                    M.violate(['C07', 'C17'] if st_['op'] == 'remove' else ['C07'], 'BAKE', f'C07:recipe_step_ne_direct_operation:{st_["op"]}' + (':subslice_reference' if sub else ''),
                               {'k': k, 'name': on_plate[0], 'diff': same_state(eager_states[k][on_plate[0]], objects[k][on_plate[0]]),
                                'program': pdesc})
                 break
@@ -1384,6 +1385,91 @@ def named_region(text, plate_name, rows, cols):
         return None
 
 
+def fill_addresses_wrong(text, pl_, b4, af, solv):
+    """"... by adding: 50.0 uL to [A1:A3, B1], 40.0 uL to [A4:B4]": every address list names exactly the wells that
+    received that amount (a range X:Y is the block of wells between its two corners).  b4 / af: per-well content snapshots
+    ([[dict]]) before and after the step.  -> True when the lists are wrong; unreadable text is counted, not judged."""
+    import re as _re
+    from . import instr as I
+    rown, coln = list(pl_.row_names), list(pl_.column_names)
+
+    def cell_(tok_):
+        for rn in sorted(rown, key=len, reverse=True):
+            if tok_.startswith(rn) and tok_[len(rn):] in coln:
+                return rown.index(rn), coln.index(tok_[len(rn):])
+        raise KeyError(tok_)
+    named = {}
+    for m_ in _re.finditer(r"([-+0-9.eE]+)\s+(\S+)\s+to\s+\[(.*?)\]", text):
+        cells = set()
+        try:
+            for part in m_.group(3).split(','):
+                part = part.strip()
+                if ':' in part:
+                    (r1, c1), (r2, c2) = (cell_(x_) for x_ in part.split(':'))
+                    for i_ in range(min(r1, r2), max(r1, r2) + 1):
+                        for j_ in range(min(c1, c2), max(c1, c2) + 1):
+                            cells.add((i_, j_))
+                else:
+                    cells.add(cell_(part))
+        except Exception:   # noqa
+            M.count('INSTR.recipe_fill_addresses_unreadable')
+            return False
+        named.setdefault((m_.group(1), m_.group(2)), set()).update(cells)
+    M.count('INSTR.recipe_fill_addresses')
+    if not named:
+        return False
+    got_all = set().union(*named.values())
+    want_all = {(i, j) for i, row in enumerate(af) for j, wc in enumerate(row)
+                if I.by_base({solv: wc.get(solv, 0.0) - b4[i][j].get(solv, 0.0)})['L'] * 1e6 >= 0.5}
+    overlap_ = sum(len(v_) for v_ in named.values()) != len(got_all)
+    wrong_ = False
+    for (val_, unit_), cells in named.items():
+        try:
+            tk = I.tokens(f'{val_} {unit_} ')[0]
+        except Exception:   # noqa
+            continue
+        for (i_, j_) in cells:
+            d_ = af[i_][j_].get(solv, 0.0) - b4[i_][j_].get(solv, 0.0)
+            if not I.token_matches(tk, I.by_base({solv: d_})):
+                wrong_ = True
+    bad_ = overlap_ or wrong_ or not want_all <= got_all
+    M.bucket('C19/recipe/fill_addresses/' + ('bad' if bad_ else 'ok'))
+    return bad_
+
+
+def fill_pattern_cases(rng, case, idx):
+    """Directed: every pattern of up to three pre-loaded wells on a 3x4 plate, then one recipe fill_to of the whole plate: two
+    (or more) groups of wells receive different amounts, and the instruction must list each group exactly."""
+    import itertools
+    pp = PP()
+    water = pp.Substance.liquid('H2O', 18.0153, 1)
+    cells = [(i, j) for i in range(3) for j in range(4)]
+    subsets = [c_ for k in (1, 2, 3) for c_ in itertools.combinations(cells, k)]
+    part, parts = (case.get('params') or {}).get('part', 0), (case.get('params') or {}).get('parts', 1)
+    with M.active(case):
+        for n_, (sub_, alt_) in enumerate([(x_, a_) for x_ in subsets for a_ in ((0, 5) if len(x_) == 3 else (0,))]):
+            if n_ % parts != part:
+                continue
+            plate = pp.Plate('assay', '200 uL', rows=3, columns=4)
+            src = pp.Container('src', initial_contents=[(water, '1 mL')])
+            with M.oracle():
+                for k_, (i, j) in enumerate(sub_):
+                    src, plate = pp.Plate.transfer(src, plate[i + 1, j + 1], f'{10 + alt_ * (k_ % 2)} uL')
+            r = pp.Recipe()
+            r.uses(plate)
+            r.fill_to(plate, water, '50 uL')
+            res = r.bake()
+            text = r.steps[0].instructions or ''
+            b4 = [[dict(w.contents) for w in row] for row in plate.wells]
+            af = [[dict(w.contents) for w in row] for row in res['assay'].wells]
+            M.count('INSTR.recipe_step')
+            if fill_addresses_wrong(text, plate, b4, af, water):
+                M.violate(['C19'], 'INSTR', 'C19:recipe_step_instruction_wrong:fill_to:addresses',
+                          {'preloaded_wells': [list(x) for x in sub_], 'instruction': text})
+            else:
+                M.note_nontrivial('C19', ('fillpat', sub_))
+
+
 def check_c19_steps(prog, pdesc, rs, r, res, ledger, objects, case):
     from . import instr as I
     cf = R.cfg()
@@ -1453,6 +1539,9 @@ def check_c19_steps(prog, pdesc, rs, r, res, ledger, objects, case):
                     if actual['L'] * 1e6 >= 0.5 and not any(I.token_matches(t_, actual) for t_ in toks):
                         bad = 'per_well_amount'
                         break
+                if bad is None and st['dst'][1] is None:
+                    if fill_addresses_wrong(text, res[t], b4, af, solv):
+                        bad = 'addresses'
         elif op == 'solution':
             nme = st['name']
             solutes = st['solutes'] if isinstance(st['solutes'], list) else [st['solutes']]
